@@ -117,3 +117,32 @@ def decide(tests, delta=DELTA):
             if pv < level:
                 fails.append((label, k, o, n, p, pv))
     return fails, ncells, worst
+
+
+def generic_dist_at(ref, init, T, max_states=6000):
+    """Law of the state at time T for any reference model with
+    enabled(state) -> {event: rate} and apply(state, event) -> state:
+    row of expm(Q T) on the reachable state space."""
+    import numpy as np
+    from scipy.linalg import expm
+    order, index = [init], {init: 0}
+    k = 0
+    trans = []
+    while k < len(order):
+        s = order[k]
+        k += 1
+        for e, r in ref.enabled(s).items():
+            t = ref.apply(s, e)
+            if t not in index:
+                index[t] = len(order)
+                order.append(t)
+                if len(order) > max_states:
+                    return None
+            trans.append((index[s], index[t], r))
+    m = len(order)
+    Q = np.zeros((m, m))
+    for i, j, r in trans:
+        Q[i, j] += r
+        Q[i, i] -= r
+    row = expm(Q * T)[0]
+    return {order[j]: float(row[j]) for j in range(m) if row[j] > 0}
